@@ -60,6 +60,15 @@ impl Checker for C02 {
             ));
             return;
         }
+        // ... and so must the totals the hub *stored* (the State query re-syncs its answer; the next transaction and
+        // the dispatcher start from what was stored)
+        if has_hub_pricing_exec(evs) && o1.stored_books > o1.delegated {
+            out.fail(v(
+                &format!("stored-books-exceed-delegations/{}", name),
+                format!("after {}: the hub stored pool totals of {} but only {} is delegated (the State query reports {})", step.desc(), o1.stored_books, o1.delegated, o1.books()),
+            ));
+            return;
+        }
         // --- (2) every coin sent with a bond-type call is delegated in that call, to registered validators
         // walk the trace: each hub bond-type execution is followed (before the next Exec) by its Delegate events
         let mut i = 0;
